@@ -2,6 +2,7 @@ package sym
 
 import (
 	"fmt"
+	"os"
 	"go/constant"
 	"go/token"
 	"go/types"
@@ -190,6 +191,8 @@ func (ex *Exec) flush() {
 	r, _ := ex.S.Check(append(append([]*T{}, as...), ex.C.BNot(conj)), nil)
 	if r == smt.Unsat {
 		ex.stats.Proved += int64(len(b))
+		// proved conditions are implied by the rest of the path condition: drop them again to keep it small
+		ex.pc = as
 		return
 	}
 	// some check may fail (or the solver gave up): examine them one by one under the growing prefix
@@ -298,6 +301,28 @@ func (ex *Exec) check(cond *T, kind, label, site string) {
 	}
 	if ex.inNewTerritory() {
 		ex.stats.AssertQueries++
+		if traceChecks {
+			fmt.Fprintf(os.Stderr, "CHECK %s [%s]: %s\n", kind, label, cond.String())
+			var walk func(t *T)
+			nd := 0
+			walk = func(t *T) {
+				if nd > 3 {
+					return
+				}
+				if t.Op == smt.OpBAnd {
+					walk(t.Args[0])
+					walk(t.Args[1])
+					return
+				}
+				if t.Op == smt.OpEq {
+					if x, y := smt.Diff(t.Args[0], t.Args[1]); x != nil {
+						nd++
+						fmt.Fprintf(os.Stderr, "   DIFF: %s\n     vs: %s\n", x.String(), y.String())
+					}
+				}
+			}
+			walk(cond)
+		}
 		r, model := ex.satModel(ex.C.BNot(cond))
 		switch r {
 		case smt.Unsat:
@@ -637,7 +662,9 @@ func (ex *Exec) runInit(p *ssa.Package) {
 
 // ---------- calls ----------
 
-const maxDepth = 200
+const maxDepth = 3000
+
+var traceChecks = os.Getenv("SYMGO_TRACE") != ""
 
 func (ex *Exec) call(fn *ssa.Function, args []Value, site string) Value {
 	name := fn.String()
@@ -654,6 +681,9 @@ func (ex *Exec) call(fn *ssa.Function, args []Value, site string) Value {
 	}
 	if uf, ok := ex.H.UF[name]; ok {
 		return ex.ufCall(fn, uf, args)
+	}
+	if us, ok := ex.H.UFSlice[name]; ok {
+		return ex.ufSliceCall(fn, us, args, site)
 	}
 	if in, ok := intrinsics[name]; ok {
 		return in(ex, fn, args, site)
